@@ -15,5 +15,11 @@ func evalIdent(ident *ast.Ident, env *object.Env) object.PanObject {
 		return appendStackTrace(err, ident.Source())
 	}
 
+	// NOTE: copy err object (like `_`), otherwise stacktrace of the shared object is overwritten
+	if err, ok := val.(*object.PanErr); ok {
+		copied := *err
+		return &copied
+	}
+
 	return val
 }
